@@ -18,6 +18,9 @@ theorem alignUp_least (a p m : Int) (hp : 0 < p) (hd : p ∣ m) (hm : a ≤ m) :
   exact alignUp_least' a p m hp hd hm
 theorem alignUp_aligned (a p : Int) (hp : 0 < p) (h : p ∣ a) : alignUp a p = a := by
   exact alignUp_aligned' a p h
+/-- address 0 is a multiple of every page size: `.align` at address 0 stays at 0 -/
+theorem alignUp_zero (p : Int) : alignUp 0 p = 0 := by
+  simp [alignUp]
 
 /-- the statements whose address is *not* simply the cursor of their zone -/
 def movesCursor : Stmt → Bool
